@@ -519,7 +519,7 @@ def valgrind_run(plan_text):
 
 # ---------------------------------------------------------------------------------------------- check
 # runs per quick check: roughly what 16 workers finish in 25-40 s on the reference sandbox
-QUICK_RUNS = {"C01": 800, "C02": 1000, "C03": 1200, "C04": 600, "C05": 2000, "C06": 1200, "C07": 2000, "C08": 1600, "C09": 1400, "C11": 1800,
+QUICK_RUNS = {"C01": 800, "C02": 1000, "C03": 1200, "C04": 480, "C05": 2000, "C06": 1200, "C07": 2000, "C08": 1600, "C09": 1400, "C11": 1800,
               "C12": 1800, "C13": 4000, "C14": 1600, "C16": 1500, "C17": 1200, "C18": 900, "C19": 1000, "C20": 1500}
 
 def check(prop, tier):
